@@ -1,3 +1,7 @@
+mod c13;
+mod c18;
+mod pool;
+mod report;
 mod runner;
 
 use runner::*;
@@ -9,6 +13,20 @@ fn main() {
     let env = Env::from_env();
     match args.get(1).map(|s| s.as_str()) {
         Some("smoke") => smoke(&env),
+        Some("C13") => {
+            let tier = args.get(2).map(|s| s.as_str()).unwrap_or("quick");
+            let replay = args.iter().position(|a| a == "--replay").and_then(|i| args.get(i + 1)).map(|s| s.as_str());
+            let code = c13::main_c13(&env, tier, simcore::rng::verif_seed(), replay);
+            env.cleanup();
+            std::process::exit(code);
+        }
+        Some("C18") => {
+            let tier = args.get(2).map(|s| s.as_str()).unwrap_or("quick");
+            let replay = args.iter().position(|a| a == "--replay").and_then(|i| args.get(i + 1)).map(|s| s.as_str());
+            let code = c18::main_c18(&env, tier, simcore::rng::verif_seed(), replay);
+            env.cleanup();
+            std::process::exit(code);
+        }
         _ => {
             eprintln!("usage: deltasim-proc smoke");
             std::process::exit(2);
